@@ -483,6 +483,22 @@ class Evolver:
             self.edits.append({"edit": "E3-new-enum", "name": name, "base": "string", "values": [v for _, v in vals]})
             return self.e_new_property(force="ref-enum")
         if focus == "and-registration-options":
+            # an item that re-declares a property of its parent with another integer kind / null-admission: the nearest wins
+            base_n, item_n = self.fresh_type_name("VfAndBase"), self.fresh_type_name("VfAndItem")
+            U_, I_ = {"kind": "base", "name": "uinteger"}, {"kind": "base", "name": "integer"}
+            self.doc["structures"].append({"name": base_n, "properties": [{"name": "vfLimit", "type": I_}, {"name": "vfDepth", "type": U_, "optional": True},
+                                                                        {"name": "vfNote", "type": {"kind": "or", "items": [{"kind": "base", "name": "string"}, {"kind": "base", "name": "null"}]}}]})
+            self.doc["structures"].append({"name": item_n, "extends": [{"kind": "reference", "name": base_n}],
+                                           "properties": [{"name": "vfLimit", "type": U_}, {"name": "vfDepth", "type": I_}, {"name": "vfNote", "type": {"kind": "base", "name": "string"}, "optional": True}]})
+            self.new_structs += [base_n, item_n]
+            self.edits.append({"edit": "E1-new-structure", "name": base_n, "properties": ["vfLimit", "vfDepth", "vfNote"]})
+            self.edits.append({"edit": "E1-new-structure", "name": item_n, "properties": ["vfLimit", "vfDepth", "vfNote"]})
+            self.counter += 1
+            ov = {"method": f"vf/andOverride{self.counter}", "messageDirection": "clientToServer", "params": self._struct_ref(), "result": {"kind": "base", "name": "null"},
+                  "registrationOptions": {"kind": "and", "items": [{"kind": "reference", "name": "TextDocumentRegistrationOptions"}, {"kind": "reference", "name": item_n}]}}
+            if any(s["name"] == "TextDocumentRegistrationOptions" for s in self.doc["structures"]):
+                self.doc["requests"].append(ov)
+                self.edits.append({"edit": "E5-new-request", "method": ov["method"], "typeName": None, "params": ov["params"], "result": ov["result"], "registrationOptions": ov["registrationOptions"]})
             # (requests and notifications, with and without typeName)
             for is_req, typed, first in ((True, True, True), (True, False, False), (False, True, False), (False, False, True)):
                 self.counter += 1
